@@ -10,8 +10,9 @@
 (***************************************************************************)
 EXTENDS Integers, Sequences, FiniteSets, TLC
 
-VARIABLES started, mode, initId, curId, opCount, builders, queued
-fvars == <<started, mode, initId, curId, opCount, builders, queued>>
+VARIABLES started, mode, initId, curId, opCount, builders, queued,
+          rawpos     \* positions in `queued` of pre-formed requests (InjectRequest / Enqueue): not the builders' doing
+fvars == <<started, mode, initId, curId, opCount, builders, queued, rawpos>>
 
 EmptyFn      == [x \in {} |-> TRUE]
 Put(f, k, v) == [x \in (DOMAIN f) \cup {k} |-> IF x = k THEN v ELSE f[x]]
@@ -95,21 +96,21 @@ Methods(kind) ==
 -----------------------------------------------------------------------------
 FInit ==
   /\ started = FALSE /\ mode = "" /\ initId = <<"0", "0">> /\ curId = <<"0", "0">> /\ opCount = 0
-  /\ builders = EmptyFn /\ queued = <<>>
+  /\ builders = EmptyFn /\ queued = <<>> /\ rawpos = {}
 
 FStart(md, id) ==
   /\ started' = TRUE /\ mode' = md /\ initId' = id /\ curId' = id /\ opCount' = 0
-  /\ builders' = EmptyFn /\ queued' = <<>>
+  /\ builders' = EmptyFn /\ queued' = <<>> /\ rawpos' = {}
 
 FNew(b, kind) ==
   /\ started
   /\ builders' = Put(builders, b, NewBuilder(kind))
-  /\ UNCHANGED <<started, mode, initId, curId, opCount, queued>>
+  /\ UNCHANGED <<started, mode, initId, curId, opCount, queued, rawpos>>
 
 FCall(b, m, a) ==
   /\ started /\ b \in DOMAIN builders /\ m \in Methods(builders[b].kind)
   /\ builders' = [builders EXCEPT ![b] = Apply(@, m, a)]
-  /\ UNCHANGED <<started, mode, initId, curId, opCount, queued>>
+  /\ UNCHANGED <<started, mode, initId, curId, opCount, queued, rawpos>>
 
 \* the operation a builder turns into (a snapshot of the builder at this moment)
 OpOf(b, typ, id) ==
@@ -122,13 +123,22 @@ FQueue(typ, bs) ==
   /\ started /\ \A i \in DOMAIN bs : bs[i] \in DOMAIN builders
   /\ queued' = Append(queued, [k |-> "ops", ops |-> [i \in DOMAIN bs |-> OpOf(bs[i], typ, opCount + i)]])
   /\ opCount' = opCount + Len(bs)
-  /\ UNCHANGED <<started, mode, initId, curId, builders>>
+  /\ UNCHANGED <<started, mode, initId, curId, builders, rawpos>>
 
 FUpdate(id) ==
   /\ started
   /\ curId' = id
   /\ queued' = Append(queued, [k |-> "elec", id |-> id])
-  /\ UNCHANGED <<started, mode, initId, opCount, builders>>
+  /\ UNCHANGED <<started, mode, initId, opCount, builders, rawpos>>
+
+\* InjectRequest / Enqueue: a pre-formed request with explicit operation ids is queued as it is; the ids the builders'
+\* operations get afterwards are not affected (the ids are the caller's business, distinct from the automatic ones)
+RawOp(id) == [id |-> id, typ |-> "ADD", ni |-> "DEFAULT", kind |-> "nh", eid |-> NoEid, f |-> [x \in {"index"} |-> "77"]]
+FInject(ids) ==
+  /\ started
+  /\ queued' = Append(queued, [k |-> "ops", ops |-> [i \in DOMAIN ids |-> RawOp(ids[i])]])
+  /\ rawpos' = rawpos \cup {Len(queued) + 1}
+  /\ UNCHANGED <<started, mode, initId, curId, opCount, builders>>
 
 \* what goes onto the stream once sending starts
 ParamsMsg == [k |-> "params", red |-> IF mode = "elected" THEN "SINGLE_PRIMARY" ELSE "ALL_PRIMARY", per |-> "PRESERVE", ack |-> "RIB_ACK"]
@@ -138,8 +148,10 @@ Sent == <<ParamsMsg>> \o (IF mode = "elected" THEN << [k |-> "elec", id |-> init
 (* Properties (C18) *)
 \* later calls never alter messages already queued
 QueuedImmutable == [][(started' /\ ~started) \/ (\A i \in DOMAIN queued : i \in DOMAIN queued' /\ queued'[i] = queued[i])]_fvars
-RECURSIVE AllOps(_)
-AllOps(q) == IF q = <<>> THEN <<>> ELSE (IF Head(q).k = "ops" THEN Head(q).ops ELSE <<>>) \o AllOps(Tail(q))
+RECURSIVE OpsFrom(_, _)
+OpsFrom(q, i) == IF i > Len(q) THEN <<>> ELSE (IF q[i].k = "ops" /\ i \notin rawpos THEN q[i].ops ELSE <<>>) \o OpsFrom(q, i + 1)
+\* the operations the builders made
+AllOps(q) == OpsFrom(q, 1)
 \* ids are 1, 2, 3, ... in queueing order
 IdsFromOne == LET o == AllOps(queued) IN Len(o) = opCount /\ \A i \in DOMAIN o : o[i].id = i
 \* an operation without its own id carries the election id that was current when it was queued
